@@ -172,12 +172,21 @@ def run_family(prog, fam_name, setup, post, contracts=None, force_contract=(), b
         for (label, pc, cond, info) in res.obligations:
             if pc is None:
                 pc = []
-            ob = Obl(f"{fam_name}/{label}@{idx}", props_for_label(label), pc + facts, cond,
+            ob = Obl(f"{fam_name}/{label}@{idx}", props_for_label(label), pc + facts + (I.ghost["qm"].facts() if "qm" in I.ghost else []), cond,
                      kind="pre", info=info, bounded=bnd, path_labels=res.labels)
             ob.res = res
             fam.obls.append(ob)
 
+        qfacts = I.ghost["qm"].facts() if "qm" in I.ghost else []
+        if res.outcome[0] == "loopcheck":
+            # a path that only checked one arbitrary iteration of a loop against its invariant
+            for ob in fam.obls:
+                if getattr(ob, "res", None) is res:
+                    ob.assumptions = ob.assumptions + qfacts
+            continue
+
         def emit(clause, props, goal, info=None, extra=(), cases=None):
+            extra = list(extra) + (I.ghost["qm"].facts() if "qm" in I.ghost else [])
             ob = Obl(f"{fam_name}/{clause}@{idx}", props, list(res.pc) + facts + list(extra), goal,
                      kind="post", info=info, bounded=bnd, path_labels=res.labels)
             ob.res = res
@@ -199,6 +208,8 @@ def run_family(prog, fam_name, setup, post, contracts=None, force_contract=(), b
 def props_for_label(label):
     if label.startswith("regex-literal"):
         return ["C14", "C16", "C17"]
+    if label.startswith("loop-invariant:"):
+        return ["C01", "C02", "C03", "C04", "C07", "C09", "C17"]
     if label.startswith("builtin:"):
         return ["C17", "C02"]
     if label.startswith("memo:"):
